@@ -286,6 +286,11 @@ pub fn write_choice(choice: &Choice) -> serde_json::Value {
 
     jobj.insert("tags".to_owned(), write_choice_tags(choice));
 
+    // Only written when set, so saves without fallback choices are unchanged.
+    if choice.is_invisible_default {
+        jobj.insert("isInvisibleDefault".to_owned(), json!(true));
+    }
+
     serde_json::Value::Object(jobj)
 }
 
